@@ -1,7 +1,8 @@
 //! ANS coder: protocol runner (real code), case generator and implementation-level oracles.
 use constriction::stream::stack::AnsCoder;
 use constriction::stream::{Code, Decode, Encode};
-use constriction::{BitArray, CoderError, Pos, Seek};
+use constriction::backends::{Cursor, ReadWords, WriteWords};
+use constriction::{BitArray, CoderError, Pos, Seek, Stack};
 use num_traits::AsPrimitive;
 
 use crate::rawmodel::{RawEnc, TableModel};
@@ -11,8 +12,8 @@ pub trait AnsCombo {
     type W: BitArray + Into<Self::S>;
     type S: BitArray + AsPrimitive<Self::W>;
     /// `None` = this (B, P) is not compiled in
-    fn enc(c: &mut AnsCoder<Self::W, Self::S>, b: u32, p: u32, cp: Option<(u128, u128)>) -> Option<String>;
-    fn dec(c: &mut AnsCoder<Self::W, Self::S>, b: u32, p: u32, cdf: &[u128]) -> Option<String>;
+    fn enc<Bk: WriteWords<Self::W>>(c: &mut AnsCoder<Self::W, Self::S, Bk>, b: u32, p: u32, cp: Option<(u128, u128)>) -> Option<String>;
+    fn dec<Bk: ReadWords<Self::W, Stack>>(c: &mut AnsCoder<Self::W, Self::S, Bk>, b: u32, p: u32, cdf: &[u128]) -> Option<String>;
     /// encode symbol `s` with the table model (oracle use)
     fn enc_sym(c: &mut AnsCoder<Self::W, Self::S>, b: u32, p: u32, cdf: &[u128], s: usize) -> Option<String>;
     /// batch forms: 0 = encode_symbols, 1 = encode_symbols_reverse, 2 = try_encode_symbols
@@ -33,21 +34,23 @@ where
     }
 }
 
-fn enc_impl<W, S, Pr, const P: usize>(c: &mut AnsCoder<W, S>, cp: Option<(u128, u128)>) -> String
+fn enc_impl<W, S, Pr, Bk, const P: usize>(c: &mut AnsCoder<W, S, Bk>, cp: Option<(u128, u128)>) -> String
 where
     W: BitArray + Into<S> + AsPrimitive<Pr>,
     S: BitArray + AsPrimitive<W>,
     Pr: BitArray + Into<W>,
+    Bk: WriteWords<W>,
 {
     let m = RawEnc::<Pr, P> { cp: cp.map(|(c, p)| (from_u128(c), from_u128(p))) };
     enc_result(c.encode_symbol(0usize, m))
 }
 
-fn dec_impl<W, S, Pr, const P: usize>(c: &mut AnsCoder<W, S>, cdf: &[u128]) -> String
+fn dec_impl<W, S, Pr, Bk, const P: usize>(c: &mut AnsCoder<W, S, Bk>, cdf: &[u128]) -> String
 where
     W: BitArray + Into<S> + AsPrimitive<Pr>,
     S: BitArray + AsPrimitive<W>,
     Pr: BitArray + Into<W>,
+    Bk: ReadWords<W, Stack>,
 {
     let m = TableModel::<Pr, P>::new(cdf.to_vec());
     match c.decode_symbol(&m) {
@@ -160,15 +163,15 @@ macro_rules! impl_ans_combo {
         impl AnsCombo for $name {
             type W = $W;
             type S = $S;
-            fn enc(c: &mut AnsCoder<$W, $S>, b: u32, p: u32, cp: Option<(u128, u128)>) -> Option<String> {
+            fn enc<Bk: WriteWords<$W>>(c: &mut AnsCoder<$W, $S, Bk>, b: u32, p: u32, cp: Option<(u128, u128)>) -> Option<String> {
                 match (b, p) {
-                    $($( (bb, $P) if bb == <$B>::BITS => Some(enc_impl::<$W, $S, $B, $P>(c, cp)), )*)*
+                    $($( (bb, $P) if bb == <$B>::BITS => Some(enc_impl::<$W, $S, $B, Bk, $P>(c, cp)), )*)*
                     _ => None,
                 }
             }
-            fn dec(c: &mut AnsCoder<$W, $S>, b: u32, p: u32, cdf: &[u128]) -> Option<String> {
+            fn dec<Bk: ReadWords<$W, Stack>>(c: &mut AnsCoder<$W, $S, Bk>, b: u32, p: u32, cdf: &[u128]) -> Option<String> {
                 match (b, p) {
-                    $($( (bb, $P) if bb == <$B>::BITS => Some(dec_impl::<$W, $S, $B, $P>(c, cdf)), )*)*
+                    $($( (bb, $P) if bb == <$B>::BITS => Some(dec_impl::<$W, $S, $B, Bk, $P>(c, cdf)), )*)*
                     _ => None,
                 }
             }
@@ -326,24 +329,83 @@ fn run_hist<C: AnsCombo>(segs: &[Vec<&str>]) -> String {
     outs.join(" | ")
 }
 
+
+/// `ansc W S cap | op …`: an encoder on a bounded `Cursor` backend of `cap` words (write
+/// failures, C09); `ansd W S | data | op …`: a seekable decoder over finished data (C07).
+fn run_cursor<C: AnsCombo>(segs: &[Vec<&str>], decoder: bool) -> String {
+    let mut outs: Vec<String> = Vec::new();
+    let mut coder: AnsCoder<C::W, C::S, Cursor<C::W, Vec<C::W>>> = if decoder {
+        let l = match segs.get(1).and_then(|s| s.first()).and_then(|s| parse_list(s)) { Some(l) => l, None => return "bad-op".into() };
+        match AnsCoder::from_compressed(Cursor::new_at_write_end(words::<C::W>(&l))) {
+            Ok(c) => c,
+            Err(_) => return "err".into(),
+        }
+    } else {
+        let cap = match segs[0].get(3).and_then(|s| parse_hex(s)) { Some(c) => c as usize, None => return "bad-op".into() };
+        AnsCoder::from_raw_parts(Cursor::new_at_write_beginning(vec![from_u128::<C::W>(0); cap]), from_u128::<C::S>(0))
+    };
+    outs.push("ok".into());
+    let start = if decoder { 2 } else { 1 };
+    for seg in &segs[start..] {
+        let r = guarded(|| -> Option<String> {
+            Some(match seg.as_slice() {
+                ["enc", b, p, cum, pr] => C::enc(&mut coder, parse_hex(b)? as u32, parse_hex(p)? as u32, Some((parse_hex(cum)?, parse_hex(pr)?))).unwrap_or("unsupported".into()),
+                ["encnone", b, p] => C::enc(&mut coder, parse_hex(b)? as u32, parse_hex(p)? as u32, None).unwrap_or("unsupported".into()),
+                ["dec", b, p, cdf] => C::dec(&mut coder, parse_hex(b)? as u32, parse_hex(p)? as u32, &parse_list(cdf)?).unwrap_or("unsupported".into()),
+                ["raw"] => {
+                    let (l, _) = coder.pos();
+                    format!("{} {}", show_list(coder.bulk().buf()[..l].iter().map(|&w| to_u128(w))), hex(to_u128(coder.state())))
+                }
+                ["pos"] => {
+                    let (l, s) = coder.pos();
+                    format!("{} {}", hex(l as u128), hex(to_u128(s)))
+                }
+                ["seek", l, s] => match coder.seek((parse_hex(l)? as usize, from_u128(parse_hex(s)?))) {
+                    Ok(()) => "ok".into(),
+                    Err(()) => "err".into(),
+                },
+                ["empty"] => format!("{}", coder.is_empty()),
+                _ => return None,
+            })
+        });
+        match r {
+            Ok(Some(s)) => outs.push(s),
+            Ok(None) => { outs.push("bad-op".into()); break; }
+            Err(class) => { outs.push(class.into()); break; }
+        }
+    }
+    outs.join(" | ")
+}
+
 pub fn run(segs: &[Vec<&str>]) -> String {
     let head = &segs[0];
-    if head.len() != 3 || segs.len() < 2 {
+    if head.len() < 3 {
         return "bad-op".into();
     }
+    let kind = head[0];
     let (w, s) = match (parse_hex(head[1]), parse_hex(head[2])) {
         (Some(w), Some(s)) => (w, s),
         _ => return "bad-op".into(),
     };
+    macro_rules! go {
+        ($C:ty) => {
+            match kind {
+                "ans" if head.len() == 3 && segs.len() >= 2 => run_hist::<$C>(segs),
+                "ansc" if head.len() == 4 => run_cursor::<$C>(segs, false),
+                "ansd" if head.len() == 3 && segs.len() >= 2 => run_cursor::<$C>(segs, true),
+                _ => "bad-op".into(),
+            }
+        };
+    }
     match (w, s) {
-        (8, 16) => run_hist::<C8x16>(segs),
-        (8, 32) => run_hist::<C8x32>(segs),
-        (8, 64) => run_hist::<C8x64>(segs),
-        (16, 32) => run_hist::<C16x32>(segs),
-        (16, 64) => run_hist::<C16x64>(segs),
-        (32, 64) => run_hist::<C32x64>(segs),
-        (32, 128) => run_hist::<C32x128>(segs),
-        (64, 128) => run_hist::<C64x128>(segs),
+        (8, 16) => go!(C8x16),
+        (8, 32) => go!(C8x32),
+        (8, 64) => go!(C8x64),
+        (16, 32) => go!(C16x32),
+        (16, 64) => go!(C16x64),
+        (32, 64) => go!(C32x64),
+        (32, 128) => go!(C32x128),
+        (64, 128) => go!(C64x128),
         _ => "unsupported".into(),
     }
 }
@@ -504,11 +566,84 @@ pub fn gen_history(rng: &mut Rng, w: u32, s: u32, bps: &[(u32, Vec<u32>)], maxle
     line
 }
 
+
+fn gen_cursor_line(rng: &mut Rng, w: u32, s: u32, bps: &[(u32, Vec<u32>)]) -> String {
+    let cap = rng.next() % 7;
+    let mut line = format!("ansc {:x} {:x} {:x}", w, s, cap);
+    let mut models: Vec<(u32, u32, Vec<u128>)> = Vec::new();
+    for _ in 0..2 {
+        let (b, p) = pick_bp(rng, bps);
+        models.push((b, p, gen_cdf(rng, p)));
+    }
+    let n = rng.next() % 30;
+    for _ in 0..n {
+        let (b, p, cdf) = rng.pick(&models).clone();
+        let op = match rng.next() % 12 {
+            0..=6 => {
+                // prefer improbable symbols: they flush words quickly
+                let mut best = 0;
+                for i in 0..cdf.len() - 1 {
+                    if cdf[i + 1] - cdf[i] < cdf[best + 1] - cdf[best] {
+                        best = i;
+                    }
+                }
+                let i = if rng.chance(2, 3) { best } else { rng.below(cdf.len() as u128 - 1) as usize };
+                format!("enc {:x} {:x} {:x} {:x}", b, p, cdf[i], cdf[i + 1] - cdf[i])
+            }
+            7 => format!("encnone {:x} {:x}", b, p),
+            8..=9 => format!("dec {:x} {:x} {}", b, p, show_list(cdf.clone())),
+            10 => "pos".into(),
+            _ => "raw".into(),
+        };
+        line.push_str(" | ");
+        line.push_str(&op);
+    }
+    line.push_str(" | raw");
+    line
+}
+
+fn gen_seekdec_line(rng: &mut Rng, w: u32, s: u32, bps: &[(u32, Vec<u32>)]) -> String {
+    let n = (rng.next() % 8) as usize;
+    let mut ws = gen_words(rng, w, n);
+    if let Some(l) = ws.last_mut() {
+        if *l == 0 {
+            *l = 1 + rng.below(pow2(w) - 1);
+        }
+    }
+    let mut line = format!("ansd {:x} {:x} | {}", w, s, show_list(ws));
+    let (b, p) = pick_bp(rng, bps);
+    let cdf = gen_cdf(rng, p);
+    let k = rng.next() % 14;
+    for _ in 0..k {
+        let op = match rng.next() % 8 {
+            0..=2 => {
+                let pos = rng.below(n as u128 + 2);
+                let lo = pow2(s - w);
+                let st = if rng.chance(3, 4) { lo.wrapping_add(rng.bits_biased(s - w)) } else { rng.bits_biased(s) };
+                let st = if s < 128 { st & (pow2(s) - 1) } else { st };
+                let st = if pos > 0 { st.max(lo) } else { st };
+                format!("seek {:x} {:x}", pos, st)
+            }
+            3..=5 => format!("dec {:x} {:x} {}", b, p, show_list(cdf.clone())),
+            6 => "pos".into(),
+            _ => "raw".into(),
+        };
+        line.push_str(" | ");
+        line.push_str(&op);
+    }
+    line.push_str(" | raw | empty");
+    line
+}
+
 pub fn gen(rng: &mut Rng, tier: &str, out: &mut Vec<String>) {
     let n_per_combo = if tier == "thorough" { 6000 } else { 350 };
     for (w, s, bps) in combos() {
         for _ in 0..n_per_combo {
             out.push(gen_history(rng, w, s, &bps, 24));
+        }
+        for _ in 0..n_per_combo / 4 {
+            out.push(gen_cursor_line(rng, w, s, &bps));
+            out.push(gen_seekdec_line(rng, w, s, &bps));
         }
     }
 }
@@ -647,6 +782,134 @@ fn oracle_combo<C: AnsCombo>(rng: &mut Rng, w: u32, s: u32, bps: &[(u32, Vec<u32
         rep.sample("C01", || desc.clone());
         rep.sample("C08", || desc.clone());
         rep.count(&format!("C01.hist.{}x{}", w, s));
+
+
+        // ---- C07: snapshots and seeking (owned and borrowed seekable decoders) ----
+        {
+            let n = (rng.next() % 25) as usize;
+            let mut enc: AnsCoder<C::W, C::S> = mk(&init_words);
+            let mut snaps = vec![enc.pos()];
+            let mut msg: Vec<(usize, usize)> = Vec::new();
+            let mut d7 = format!("ans {:x} {:x} | {} {}", w, s, if from_bin { "binary" } else { "compressed" }, show_list(init_words.clone()));
+            for _ in 0..n {
+                let mi = (rng.next() % 3) as usize;
+                let (b, p, cdf) = models[mi].clone();
+                let sym = rng.below(cdf.len() as u128 - 1) as usize;
+                C::enc_sym(&mut enc, b, p, &cdf, sym).unwrap();
+                d7.push_str(&format!(" | enc {:x} {:x} {:x} {:x} | pos", b, p, cdf[sym], cdf[sym + 1] - cdf[sym]));
+                msg.push((mi, sym));
+                snaps.push(enc.pos());
+            }
+            let total_words = enc.bulk().len();
+            let owned = rng.chance(1, 2);
+            let mut dec_owned = enc.clone().into_seekable_decoder();
+            let mut dec_borrowed = enc.as_seekable_decoder();
+            let jumps = 1 + rng.next() % 6;
+            for _ in 0..jumps {
+                let i = rng.below(n as u128 + 1) as usize;
+                let reps = 1 + rng.next() % 2;
+                let mut okseek = true;
+                for _ in 0..reps {
+                    okseek &= if owned { dec_owned.seek(snaps[i]).is_ok() } else { dec_borrowed.seek(snaps[i]).is_ok() };
+                }
+                rep.eval("C07");
+                if !okseek {
+                    rep.fail("C07", format!("{} => seek to recorded snapshot {} ({:x},{:x}) refused", d7, i, snaps[i].0, to_u128(snaps[i].1)));
+                    break;
+                }
+                let mut bad = None;
+                for j in (0..i).rev() {
+                    let (mi, sym) = msg[j];
+                    let (b, p, cdf) = models[mi].clone();
+                    let o = if owned { C::dec(&mut dec_owned, b, p, &cdf).unwrap() } else { C::dec(&mut dec_borrowed, b, p, &cdf).unwrap() };
+                    if o != hex(sym as u128) {
+                        bad = Some((j, o));
+                        break;
+                    }
+                }
+                if let Some((j, o)) = bad {
+                    rep.fail("C07", format!("{} => after seek to snapshot {} ({}): symbol {} decoded as {} expected {:x}", d7, i, if owned { "owned" } else { "borrowed" }, j, o, msg[j].1));
+                    break;
+                }
+                rep.count(if owned { "C07.owned" } else { "C07.borrowed" });
+            }
+            // beyond the data
+            rep.eval("C07");
+            let beyond = (total_words + 1 + (rng.next() % 3) as usize, snaps[0].1);
+            if dec_owned.seek(beyond).is_ok() {
+                rep.fail("C07", format!("{} => seek to position {:x} beyond the data ({} words) accepted", d7, beyond.0, total_words));
+            }
+            rep.sample("C07", || d7.clone());
+        }
+
+        // ---- C09: bounded backend, write failure at the k-th word ----
+        {
+            let cap = (rng.next() % 6) as usize;
+            let mut enc: AnsCoder<C::W, C::S, Cursor<C::W, Vec<C::W>>> =
+                AnsCoder::from_raw_parts(Cursor::new_at_write_beginning(vec![from_u128::<C::W>(0); cap]), from_u128::<C::S>(0));
+            let mut pushed: Vec<(usize, usize)> = Vec::new();
+            let mut d9 = format!("ansc {:x} {:x} {:x}", w, s, cap);
+            let mut failures = 0;
+            for _ in 0..60 {
+                let mi = (rng.next() % 3) as usize;
+                let (b, p, cdf) = models[mi].clone();
+                let sym = rng.below(cdf.len() as u128 - 1) as usize;
+                let before = (enc.pos(), enc.bulk().buf().to_vec());
+                let o = C::enc(&mut enc, b, p, Some((cdf[sym], cdf[sym + 1] - cdf[sym]))).unwrap();
+                d9.push_str(&format!(" | enc {:x} {:x} {:x} {:x}", b, p, cdf[sym], cdf[sym + 1] - cdf[sym]));
+                rep.eval("C09");
+                if o == "ok" {
+                    pushed.push((mi, sym));
+                } else {
+                    failures += 1;
+                    rep.count("C09.backend_full");
+                    let after = (enc.pos(), enc.bulk().buf().to_vec());
+                    if o != "full" || before.0 != after.0 || before.1[..before.0 .0] != after.1[..after.0 .0] {
+                        rep.fail("C09", format!("{} | raw => failed write returned {} / changed the coder", d9, o));
+                        break;
+                    }
+                    if failures >= 3 {
+                        break;
+                    }
+                }
+            }
+            // everything pushed before (and between) the failures still pops
+            for &(mi, sym) in pushed.iter().rev() {
+                let (b, p, cdf) = models[mi].clone();
+                d9.push_str(&format!(" | dec {:x} {:x} {}", b, p, show_list(cdf.clone())));
+                let o = C::dec(&mut enc, b, p, &cdf).unwrap();
+                if o != hex(sym as u128) {
+                    rep.fail("C09", format!("{} => decoded {} expected {:x} after {} backend failures", d9, o, sym, failures));
+                    break;
+                }
+            }
+            rep.sample("C09", || d9.clone());
+        }
+
+        // ---- C12: size bound from an empty coder ----
+        {
+            let mut enc: AnsCoder<C::W, C::S> = AnsCoder::new();
+            let n = (rng.next() % 80) as usize;
+            let mut bound_bits = (s + w) as f64; // constant of the ANS bound: S + W
+            let mut d12 = format!("ans {:x} {:x} | new", w, s);
+            for i in 0..n {
+                let mi = (rng.next() % 3) as usize;
+                let (b, p, cdf) = models[mi].clone();
+                let sym = rng.below(cdf.len() as u128 - 1) as usize;
+                C::enc_sym(&mut enc, b, p, &cdf, sym).unwrap();
+                d12.push_str(&format!(" | enc {:x} {:x} {:x} {:x}", b, p, cdf[sym], cdf[sym + 1] - cdf[sym]));
+                let k = (s - w - p) as f64;
+                bound_bits += p as f64 - ((cdf[sym + 1] - cdf[sym]) as f64).log2() + (1.0 + (-k).exp2()).log2();
+                rep.eval("C12");
+                let bits = enc.num_bits() as f64;
+                let words = enc.num_words();
+                if bits > bound_bits * (1.0 + 1e-9) + 1e-6 || words > (i + 1) + (s / w) as usize {
+                    rep.fail("C12", format!("{} | nb | nw => {} bits, {} words after {} symbols; bound {:.6} bits, {} words", d12, bits, words, i + 1, bound_bits, (i + 1) + (s / w) as usize));
+                    break;
+                }
+            }
+            rep.sample("C12", || d12.clone());
+        }
 
         // ---- C04 / C10 / C18: bits back from arbitrary binary data ----
         let n = (rng.next() % 6) as usize;
